@@ -360,6 +360,34 @@ fn power_iteration(
         .collect();
     normalize(&mut v);
 
+    // The fixed start vector can be (numerically) orthogonal to the row space of `a` although `a`
+    // is not zero: a row (1, 1, 0, ...) (the first two start components cancel), or the remainder
+    // after one of two equal singular values was deflated. `a * v` is then zero, the iteration
+    // "converges" to sigma = 0 and the caller drops the component. Restart from the row of `a`
+    // with the largest norm: it lies in the row space and `a * v` cannot vanish for it.
+    let fro = a.frobenius_norm();
+    if fro > 0.0 {
+        let av: f32 = (0..a.rows)
+            .map(|i| {
+                let s: f32 = (0..a.cols).map(|j| a.get(i, j) * v[j]).sum();
+                s * s
+            })
+            .sum::<f32>()
+            .sqrt();
+        #[allow(clippy::cast_precision_loss)]
+        let expected = fro / (a.cols as f32).sqrt();
+        if av <= 1e-3 * expected {
+            let row_norm = |i: usize| -> f32 { (0..a.cols).map(|j| a.get(i, j) * a.get(i, j)).sum() };
+            let best = (0..a.rows)
+                .max_by(|&p, &q| row_norm(p).partial_cmp(&row_norm(q)).unwrap_or(std::cmp::Ordering::Equal))
+                .unwrap_or(0);
+            let mut w: Vec<f32> = (0..a.cols).map(|j| a.get(best, j)).collect();
+            if normalize(&mut w) > 1e-10 {
+                v = w;
+            }
+        }
+    }
+
     let mut u = vec![0.0f32; a.rows];
     let mut sigma = 0.0f32;
 
